@@ -28,7 +28,10 @@ def parseCall (s : String) : Option Call :=
   | ["gs", b] => (ofHex b).map (.body .string)
   | ["gb", b] => (ofHex b).map (.body .bytes)
   | ["gj", b] => (ofHex b).map (.body .json)
-  | ["gr", b] => (ofHex b).map .bodyReader
+  | ["gr", _mode, d, cs] => do
+      let d ← if d == "n" then some none else d.toNat?.map some
+      let cs ← if cs == "_" then some [] else (cs.splitOn ",").mapM ofHex
+      pure (.bodyReader cs d)
   | ["q", _ps, u] => (ofHex u).map .query
   | _ => none
 
